@@ -542,6 +542,17 @@ func (root *Root) replaceArgVars(vars map[string]interface{}, v interface{}, at 
 	return
 }
 
+// isQueryType returns true if t is the type of the query operation. That is
+// the type the schema block names for query which need not be called Query.
+func (root *Root) isQueryType(t Type) bool {
+	if root.schema != nil {
+		if fd := root.schema.fields.get(string(OpQuery)); fd != nil {
+			return fd.Type == t
+		}
+	}
+	return t.Name() == "Query"
+}
+
 // dupValue makes a deep copy of the lists and objects of a value.
 func dupValue(v interface{}) interface{} {
 	switch tv := v.(type) {
@@ -577,14 +588,13 @@ func (root *Root) resolveField(
 			return
 		}
 	}
-	const queryType = "Query"
 	var ea2 []error
 	switch field.Name {
 	case "__typename":
 		result[field.key()] = t.Name()
 		return nil
 	case "__type":
-		if t.Name() == queryType {
+		if root.isQueryType(t) {
 			var fv interface{} // field value
 			var av *ArgValue
 
@@ -616,7 +626,7 @@ func (root *Root) resolveField(
 		ea = append(ea, resWarnp(field, "__type meta-field is only on the query object"))
 		return
 	case "__schema":
-		if t.Name() == queryType {
+		if root.isQueryType(t) {
 			var fv interface{} // field value
 
 			fv, ea2 = root.resolve(root, vars, field, root.uuSchemaType, depth)
